@@ -349,6 +349,12 @@ func runC11(c *Ctx) {
 				}
 			}
 			t := SymImport{Name: string(rune('T' + j)), Version: 1 + r.Intn(2), Symbols: syms, MaxID: -1}
+			if i%4 == 3 {
+				// names ending in digits and multi-digit versions: (name, version) pairs whose
+				// concatenations coincide must stay distinct tables for writer and reader
+				pick := [][2]interface{}{{"T1", 11}, {"T11", 1}, {"T", 111}, {"T111", 1}}[j%4]
+				t.Name, t.Version = pick[0].(string), pick[1].(int)
+			}
 			if r.Intn(3) == 0 {
 				t.MaxID = int64(r.Intn(ns + 3))
 			}
